@@ -122,9 +122,37 @@ def tag_field(rel, cls, repo=None):
     return c[0] if len(c) == 1 else None
 
 
+def roles(rel, cls, repo=None):
+    """Which field of the real class plays which role of the representation, found from the real __init__ (so that renaming a
+    field re-verifies): depth = the int counter (named skip_depth, else the only int field with skip/depth in its name);
+    tag = the only field with `tag` in its name (may be absent); for the tree builder root = the dict literal with a
+    `children` entry, stack = the list literal `[self.<root>]`, last = the None-initialised node field.
+    A role that cannot be found makes the function OUT-OF-SUBSET (`unknown`; the native replayer decides), never refuted."""
+    fs = init_fields(rel, cls, repo)
+    ints = [f for f, _a, v in fs if isinstance(v, ast.Constant) and type(v.value) is int]
+    cand = [f for f in ints if f == "skip_depth"] or [f for f in ints if "skip" in f.lower() or "depth" in f.lower()]
+    out = {"depth": cand[0] if len(cand) == 1 else None, "tag": tag_field(rel, cls, repo)}
+    root = [f for f, _a, v in fs if isinstance(v, ast.Dict) and any(isinstance(k, ast.Constant) and k.value == "children" for k in v.keys)]
+    out["root"] = root[0] if len(root) == 1 else None
+    stack = [f for f, _a, v in fs if isinstance(v, ast.List) and len(v.elts) == 1 and ast.unparse(v.elts[0]) == f"self.{out['root']}"]
+    out["stack"] = stack[0] if len(stack) == 1 else None
+    last = [f for f, a, v in fs if isinstance(v, ast.Constant) and v.value is None and f != out["tag"]
+            and ("Dict" in a or "dict" in a or "closed" in f.lower() or "last" in f.lower())]
+    out["last"] = last[0] if len(last) == 1 else None
+    return out
+
+
+def need(rel, cls, repo, *names):
+    r = roles(rel, cls, repo)
+    missing = [n for n in names if r.get(n) is None]
+    if missing:
+        raise Unsupported(f"representation of {cls} not recognised: no field for role(s) {missing}")
+    return r
+
+
 def skip_fields(rel, cls, repo=None):
-    tf = tag_field(rel, cls, repo)
-    return {"skip_depth"} | ({tf} if tf else set())
+    r = need(rel, cls, repo, "depth")
+    return {r["depth"]} | ({r["tag"]} if r["tag"] else set())
 
 
 # ---------------------------------------------------------------- heap model --
@@ -175,12 +203,13 @@ def html_self():
         stack, sl = mk_olist(ex, st, name + ".stack", "node", root=root.ref)
         other, c1 = mk_node(ex, st, name + ".last_closed")
         per_field = []
+        r = need(HTML, HCLS, ex.module.repo, "depth", "root", "stack", "last")
         for f, ann, val in init_fields(HTML, HCLS, ex.module.repo):
-            if f == "root":
+            if f == r["root"]:
                 per_field.append((f, [(c0, root)]))
-            elif f == "stack":
+            elif f == r["stack"]:
                 per_field.append((f, [(z3.And(sl >= 1), stack)]))
-            elif f == "last_closed":
+            elif f == r["last"]:
                 # None | a node other than the root | the root itself (aliasing made explicit)
                 per_field.append((f, [(None, NONE), (c1, other), (None, root)]))
             else:
@@ -587,11 +616,12 @@ def reach(c, st=None):
     from the class invariant) survives iff no pre-state children list lost members."""
     st = st or c.st
     d = st.obj(c.args["self"].ref).data
-    root = d.get("root")
+    rname = need(HTML, HCLS, c.ex.module.repo, "root")["root"]
+    root = d.get(rname)
     if not isinstance(root, VRef):
         return None
     pre = pre_heap(c)
-    e_root = c.entry.obj(c.args["self"].ref).data.get("root")
+    e_root = c.entry.obj(c.args["self"].ref).data.get(rname)
     if e_root is not None and not same_val(e_root, root):
         return None
     for ref, o in pre.items():
@@ -637,9 +667,10 @@ def html_inv(c, rho, st=None):
     st = st or c.st
     d = st.obj(c.args["self"].ref).data
     F = z3.BoolVal(False)
-    if not {"root", "stack", "skip_depth", "last_closed"} <= set(d):
-        return F
-    root, stack, sd, lc = d["root"], d["stack"], d["skip_depth"], d["last_closed"]
+    r = need(HTML, HCLS, c.ex.module.repo, "depth", "root", "stack", "last")
+    if not {r["root"], r["stack"], r["depth"], r["last"]} <= set(d):
+        return F                        # __init__ (or the handler) lost a field of the representation
+    root, stack, sd, lc = d[r["root"]], d[r["stack"]], d[r["depth"]], d[r["last"]]
     if not is_node(st, root) or not isinstance(stack, VRef) or not isinstance(sd, VInt):
         return F
     R = reach(c, st)
@@ -663,7 +694,7 @@ def html_inv(c, rho, st=None):
             return F
     if not isinstance(lc, VNoneT) and not (is_node(st, lc) and lc.ref in R):
         return F
-    tf = tag_field(HTML, HCLS, c.ex.module.repo)
+    tf = r["tag"]
     goals.append(coupling(sd.t, d.get(tf, MISSING) if tf else MISSING, rho))
     return z3.And(goals)
 
@@ -671,20 +702,22 @@ def html_inv(c, rho, st=None):
 def epub_inv(c, rho, st=None):
     st = st or c.st
     d = st.obj(c.args["self"].ref).data
-    sd = d.get("skip_depth")
+    r = need(EPUB, ECLS, c.ex.module.repo, "depth")
+    sd = d.get(r["depth"])
     if not isinstance(sd, VInt):
         return z3.BoolVal(False)
-    tf = tag_field(EPUB, ECLS, c.ex.module.repo)
+    tf = r["tag"]
     return coupling(sd.t, d.get(tf, MISSING) if tf else MISSING, rho)
 
 
 def html_requires(c):
     d = c.st.obj(c.args["self"].ref).data
-    r0 = frozenset(v.ref for v in (d["root"], d["last_closed"]) if isinstance(v, VRef))
+    r = need(HTML, HCLS, c.ex.module.repo, "depth", "root", "stack", "last")
+    r0 = frozenset(v.ref for v in (d[r["root"]], d[r["last"]]) if isinstance(v, VRef))
     c.st.ghost["reach0"] = r0
     c.entry.ghost["reach0"] = r0
-    tf = tag_field(HTML, HCLS, c.ex.module.repo)
-    return coupling(d["skip_depth"].t, d.get(tf, MISSING) if tf else MISSING, RHO)
+    tf = r["tag"]
+    return coupling(d[r["depth"]].t, d.get(tf, MISSING) if tf else MISSING, RHO)
 
 
 def html_data_stored(c):
@@ -714,6 +747,8 @@ def epub_data_stored(c):
         return z3.BoolVal(False)
     ref, k, a, b = ch[0]
     d0 = c.entry.obj(c.args["self"].ref).data
+    if not all(f in d0 for f in EPUB_SINKS):
+        raise Unsupported(f"text sinks of {ECLS} not recognised: {[f for f in EPUB_SINKS if f not in d0]}")
     data = c.args["data"].t
     if ref == c.args["self"].ref:
         if k in EPUB_SINKS and isinstance(a, VStr) and isinstance(b, VStr):
@@ -783,7 +818,7 @@ def contracts(reg):
         params=[("self", html_self())] + GHOST,
         requires=html_requires,
         ensures=[("returns-the-root-the-handlers-fill", lambda c: z3.BoolVal(
-                    isinstance(c.result, VRef) and c.result.ref == c.entry.obj(c.args["self"].ref).data["root"].ref)),
+                    isinstance(c.result, VRef) and c.result.ref == c.entry.obj(c.args["self"].ref).data[need(HTML, HCLS, c.ex.module.repo, "root")["root"]].ref)),
                  ("pure", lambda c: frame(c, ()))],
         modifies=("self",),
     ))
@@ -934,22 +969,71 @@ def policy(repo, tier):
     mh, ms = loader.module(MHTML, repo), loader.module(MSG, repo)
 
     def lit(m, name):
-        try:
-            v = m.assigns[name]
-            if isinstance(v, ast.Call) and dotted(v.func) in ("frozenset", "set") and len(v.args) == 1:
-                v = v.args[0]
-            return set(ast.literal_eval(v))
-        except (KeyError, ValueError, SyntaxError, TypeError):
+        """Value of a module-level table of strings, however it is written (set / frozenset / tuple literal, union, ...):
+        the module-level initialiser is evaluated by the engine.  None = no such name or not a constant collection."""
+        from pyvc.contracts import Registry as _Reg
+        from pyvc.exctypes import Universe as _Uni
+        from pyvc.values import VSetC as _VSetC
+        if name not in m.assigns:
             return None
-    hr, er, hv = lit(h, "REMOVE_TAGS"), lit(e, "REMOVE_TAGS"), lit(h, "_VOID_TAGS")
-    G("C17/html_extractor.py::REMOVE_TAGS/module-invariant#equals-the-removable-set-of-the-statement", hr == set(SPEC_REMOVE), f"{sorted(hr or [])}")
-    G("C17/epub_extractor.py::REMOVE_TAGS/module-invariant#equals-the-removable-set-of-the-statement", er == set(SPEC_REMOVE), f"{sorted(er or [])}")
-    G("C17/html_extractor.py::_VOID_TAGS/module-invariant#void-and-removable-agree-with-HTML", hv is not None and hv & SPEC_REMOVE == SPEC_VOID & SPEC_REMOVE,
+        try:
+            ex = Executor(m, _Reg(), _Uni(repo))
+            ex.sinks.append([])
+            v = ex.module_const(name)
+            items = list(v.items) if isinstance(v, (_VSetC, VTuple)) else None
+            if items is None:
+                return None
+            vals = [x.const() if isinstance(x, VStr) else x for x in items]
+            return set(vals) if all(isinstance(x, str) for x in vals) else None
+        except Exception:  # noqa
+            return None
+
+    def T(oid, table, ok, why):
+        """A table invariant: decided (ground) when the table could be evaluated, `unknown` when the name / shape is not
+        recognised (the handler proofs read the real tables themselves, so nothing is lost)."""
+        if table is None:
+            obls.append(ground_obligation(oid, False, "table not found under this name / not a constant collection of strings",
+                                          "tables", kind="module-invariant", backend="ground", definite=False))
+        else:
+            G(oid, ok, why)
+    def tables_of(m, cls):
+        """Module-level string tables the start-tag handler (and private helpers of the class it calls) refers to, by name."""
+        seen, todo, names = set(), [f"{cls}.handle_starttag"], []
+        while todo:
+            q = todo.pop()
+            fn_ = m.functions.get(q)
+            if fn_ is None or q in seen:
+                continue
+            seen.add(q)
+            for n in ast.walk(fn_):
+                if isinstance(n, ast.Name) and isinstance(n.ctx, ast.Load) and n.id in m.assigns and n.id not in names:
+                    names.append(n.id)
+                if isinstance(n, ast.Attribute) and isinstance(n.value, ast.Name) and n.value.id in ("self", cls):
+                    todo.append(f"{cls}.{n.attr}")
+        return {n: lit(m, n) for n in names if lit(m, n) is not None}
+
+    def by_role(m, cls):
+        """(remove table, void table): by the conventional name when present, else by role among the tables the handler uses:
+        the remove table is the one that contains `script`; the void table is the other one that contains `embed` / `br`."""
+        tabs = tables_of(m, cls)
+        rm = lit(m, "REMOVE_TAGS")
+        if rm is None:
+            c_ = [v for v in tabs.values() if "script" in v]
+            rm = c_[0] if len(c_) == 1 else None
+        vd = lit(m, "_VOID_TAGS")
+        if vd is None:
+            c_ = [v for v in tabs.values() if "script" not in v and "div" not in v and ("embed" in v or "br" in v)]
+            vd = c_[0] if len(c_) == 1 else None
+        return rm, vd
+    (hr, hv), (er, _ev) = by_role(h, HCLS), by_role(e, ECLS)
+    T("C17/html_extractor.py::REMOVE_TAGS/module-invariant#equals-the-removable-set-of-the-statement", hr, hr == set(SPEC_REMOVE), f"{sorted(hr or [])}")
+    T("C17/epub_extractor.py::REMOVE_TAGS/module-invariant#equals-the-removable-set-of-the-statement", er, er == set(SPEC_REMOVE), f"{sorted(er or [])}")
+    T("C17/html_extractor.py::_VOID_TAGS/module-invariant#void-and-removable-agree-with-HTML", hv, hv is not None and hv & SPEC_REMOVE == SPEC_VOID & SPEC_REMOVE,
       f"{sorted((hv or set()) & SPEC_REMOVE)} vs {sorted(SPEC_VOID & SPEC_REMOVE)}")
-    G("C17/html_extractor.py::_VOID_TAGS/module-invariant#only-HTML-void-elements", hv is not None and hv <= SPEC_VOID and {"img", "br", "input", "param", "source"} <= hv,
+    T("C17/html_extractor.py::_VOID_TAGS/module-invariant#only-HTML-void-elements", hv, hv is not None and hv <= SPEC_VOID and {"img", "br", "input", "param", "source"} <= hv,
       f"extra={sorted((hv or set()) - SPEC_VOID)}")
     bad = [t for s_ in (hr, er, hv) if s_ for t in s_ if t != t.lower() or not t.isalnum()]
-    G("C17/html+epub::tables/module-invariant#entries-lowercase-names", not bad and hr and er and hv, str(bad))
+    T("C17/html+epub::tables/module-invariant#entries-lowercase-names", None if (hr is None or er is None or hv is None) else True, not bad, str(bad))
 
     # the parser classes override only callbacks that are under contract; everything else html.parser
     # delivers (comments for EPUB, declarations, processing instructions, CDATA sections) hits the inherited no-op
@@ -963,10 +1047,12 @@ def policy(repo, tier):
         over = sorted(n.name for n in (node.body if node else []) if isinstance(n, ast.FunctionDef) and n.name in callbacks - under)
         P(f"C17/{short}::{cls}/call-site#only-contracted-parser-callbacks-overridden", ok and not over, f"base ok={ok}; overrides outside the contracts: {over}")
         init = m.functions.get(f"{cls}.__init__")
-        sup = [c_ for c_ in _calls(init) if ast.unparse(c_.func) == "super().__init__"] if init else []
+        sup = [c_ for c_ in _calls(init) if ast.unparse(c_.func) in ("super().__init__", "HTMLParser.__init__", f"super({cls}, self).__init__")] if init else []
         kw = {k.arg: ast.unparse(k.value) for c_ in sup for k in c_.keywords}
+        # convert_charrefs defaults to True (Python >= 3.5); no __init__ at all inherits that default
         P(f"C17/{short}::{cls}.__init__/call-site#charrefs-converted-so-text-arrives-only-through-handle_data",
-          len(sup) == 1 and kw.get("convert_charrefs") == "True", f"super().__init__ keywords: {kw}")
+          (init is None or len(sup) == 1) and kw.get("convert_charrefs", "True") == "True"
+          and not any(len(c_.args) > (1 if ast.unparse(c_.func) == "HTMLParser.__init__" else 0) for c_ in sup), f"base __init__ keywords: {kw}")
         if init is not None:
             fns.append(dict(m.fn_info(f"{cls}.__init__"), obligations=1))
 
@@ -974,9 +1060,16 @@ def policy(repo, tier):
     # (contracts/C17_glue.py) since round 3 -- the former shape checks broke on helper extraction / import style.
     # get_text only reads what handle_data/handle_*tag stored (joins text_parts)
     gt = e.functions.get(f"{ECLS}.get_text")
-    ok = gt is not None and not [n for n in ast.walk(gt) if isinstance(n, ast.Attribute) and isinstance(n.ctx, ast.Store)] \
-        and any(ast.unparse(n) == "''.join(self.text_parts)" for n in ast.walk(gt))
-    P("C17/epub_extractor.py::_XhtmlTextExtractor.get_text/call-site#text-is-the-join-of-stored-parts", ok, "")
+    # dataflow form: get_text stores nothing, and the only state it reads is the list of stored parts
+    if gt is not None:
+        reads = sorted({n.attr for n in ast.walk(gt) if isinstance(n, ast.Attribute) and isinstance(n.value, ast.Name) and n.value.id == "self"
+                        and isinstance(n.ctx, ast.Load)})
+        stores = [n for n in ast.walk(gt) if isinstance(n, (ast.Attribute, ast.Subscript)) and isinstance(n.ctx, (ast.Store, ast.Del))
+                  and any(isinstance(x, ast.Name) and x.id == "self" for x in ast.walk(n))]
+        ok, why = reads == ["text_parts"] and not stores, f"reads self.{reads}, {len(stores)} store(s) through self"
+    else:
+        ok, why = False, "get_text missing"
+    P("C17/epub_extractor.py::_XhtmlTextExtractor.get_text/call-site#text-is-the-join-of-stored-parts", ok, why)
     return {"obligations": obls, "functions": fns}
 
 
